@@ -343,7 +343,7 @@ impl Check for C01 {
         std::time::Duration::from_secs(20)
     }
     fn rule(&self) -> String {
-        "choice sequence -> (bytes, chunking, call program, pool none / rayon(2), buffer width setting). Bytes: (a) random strings <= 4 KiB, half of them behind a valid signature; (b) the repository's 60 fuzz_findings files and saved seeds, plain and mutated; (c) container layouts from C10's generator including its ill-formed variants; (d) valid streams from the jxlref generators (lossless Modular, multi-frame, VarDCT, JPEG transcodes with jbrd/Exif/XMP boxes; bare and container layouts) mutated by bit flips, byte sets, deletions, insertions, splices and truncation (mostly behind the headers), or unmutated. Call program: feed in generated chunks with unconsumed bytes re-offered + try_init, or read(); then a generated sequence over finalize, render_frame(k) (valid and out-of-range k), render_loading_frame, set_image_region (generated rectangles folded into the image), request_color_encoding (8-entry menu), request_icc (own ICC or slices of the input), metadata / ICC / CICP / pixel format / HDR type / frame and offset queries, aux boxes, jpeg_reconstruction_status + reconstruct_jpeg, and on every Render: image_all_channels, image_planar, stream()/stream_no_alpha() into f32/u16/u8 buffers. Allocation limit 128 MiB; renders are skipped for images larger than 65536 (as the project's fuzz harness does). Built with overflow checks and debug assertions. Oracle: no panic, no abnormal worker exit, no confirmed deadline overrun (20 s, 200 s alone); no expectation on Ok/Err. Non-trivial: the image was initialised (headers parsed); distinct by FNV of (bytes, program).".into()
+        "choice sequence -> (bytes, chunking, call program, pool none / rayon(2), buffer width setting). Bytes: (a) random strings <= 4 KiB, half of them behind a valid signature; (b) the repository's 60 fuzz_findings files and saved seeds, plain and mutated; (c) container layouts from C10's generator including its ill-formed variants; (d) well-formed streams from the jxlref generators in which one literal of a structural entropy-coded stream (MA tree, TOC permutation, patch / spline dictionary) was replaced before coding (spec-level hostility); (e) valid streams from the jxlref generators (lossless Modular, multi-frame, VarDCT, JPEG transcodes with jbrd/Exif/XMP boxes; bare and container layouts) mutated by bit flips, byte sets, deletions, insertions, splices and truncation (mostly behind the headers), or unmutated. Call program: feed in generated chunks with unconsumed bytes re-offered + try_init, or read(); then a generated sequence over finalize, render_frame(k) (valid and out-of-range k), render_loading_frame, set_image_region (generated rectangles folded into the image), request_color_encoding (8-entry menu), request_icc (own ICC or slices of the input), metadata / ICC / CICP / pixel format / HDR type / frame and offset queries, aux boxes, jpeg_reconstruction_status + reconstruct_jpeg, and on every Render: image_all_channels, image_planar, stream()/stream_no_alpha() into f32/u16/u8 buffers. Allocation limit 128 MiB; renders are skipped for images larger than 65536 (as the project's fuzz harness does). Built with overflow checks and debug assertions. Oracle: no panic, no abnormal worker exit, no confirmed deadline overrun (20 s, 200 s alone); no expectation on Ok/Err. Non-trivial: the image was initialised (headers parsed); distinct by FNV of (bytes, program).".into()
     }
     fn assumptions(&self) -> Vec<String> {
         vec!["only the SIMD paths this CPU selects are executed".into(), "known panic signatures listed in known_findings.json are tolerated in generated cases (counted in known_finding_hits) and strict in the replay tier".into()]
@@ -365,7 +365,7 @@ impl Check for C01 {
             classes.push("src:seed-file".into());
             files.get(i).map(|f| f.1.clone()).unwrap_or_default()
         } else {
-            match src.weighted(&[1, 2, 3, 3, 2, 1]) {
+            match src.weighted(&[1, 2, 3, 3, 2, 1, 3]) {
                 0 => {
                     classes.push("src:random".into());
                     let n = src.range(0, 4096) as usize;
@@ -419,6 +419,34 @@ impl Check for C01 {
                     protect = 12;
                     l.file
                 }
+                6 => {
+                    // well-formed streams carrying one out-of-range value in a structural stream (MA tree, TOC
+                    // permutation, patch or spline dictionary): jxlref::hostile perturbs one literal before coding
+                    classes.push("src:spec-hostile".into());
+                    let mut ao = AnyOpts::default();
+                    ao.weights = [2, 3, 3];
+                    ao.modular.max_dim = 64;
+                    ao.vardct.big_square = 0;
+                    ao.vardct.multi_lf_group = 0;
+                    ao.vardct.boundary = 8;
+                    let seed = src.u64();
+                    jxlref::hostile::arm(seed);
+                    let r = std::panic::catch_unwind(std::panic::AssertUnwindSafe(|| gen_any_case(&mut src, &ao)));
+                    jxlref::hostile::disarm();
+                    match r {
+                        Ok(c) => {
+                            classes.push(format!("image:{}", c.kind));
+                            protect = c.bytes.len();
+                            c.bytes
+                        }
+                        Err(_) => {
+                            // the reference writer could not express the perturbed value: fall back to a seed file
+                            classes.push("spec-hostile:writer-refused".into());
+                            let files = seed_files();
+                            if files.is_empty() { vec![0xff, 0x0a] } else { files[src.below(files.len())].1.clone() }
+                        }
+                    }
+                }
                 _ => {
                     classes.push("src:jpeg-transcode".into());
                     let jo = JpegGenOpts::default();
@@ -428,7 +456,8 @@ impl Check for C01 {
                 }
             }
         };
-        if !fixed_file && !msrc.chance(40) && !classes.iter().any(|c| c == "src:random") {
+        let spec_hostile = classes.iter().any(|c| c == "src:spec-hostile");
+        if !fixed_file && !msrc.chance(if spec_hostile { 200 } else { 40 }) && !classes.iter().any(|c| c == "src:random") {
             mutate(&mut bytes, &mut msrc, &mut classes, protect);
         } else if !fixed_file {
             classes.push("unmutated".into());
